@@ -62,9 +62,12 @@ pub struct Refs {
 	dfas: std::sync::Mutex<BTreeMap<(Family, Kind), std::sync::Arc<dfa::Dfa>>>,
 }
 
+static GLOBAL_REFS: OnceLock<Refs> = OnceLock::new();
+
 impl Refs {
-	pub fn new(root: &Path) -> Self {
-		Refs { root: root.to_path_buf(), specs: [OnceLock::new(), OnceLock::new()], dfas: Default::default() }
+	/// Process-wide instance (the DFAs are built once, on demand).
+	pub fn new(root: &Path) -> &'static Refs {
+		GLOBAL_REFS.get_or_init(|| Refs { root: root.to_path_buf(), specs: [OnceLock::new(), OnceLock::new()], dfas: Default::default() })
 	}
 	pub fn spec(&self, f: Family) -> &Spec {
 		let i = match f {
@@ -101,5 +104,23 @@ pub fn ref_valid(d: &dfa::Dfa, f: Family, k: Kind, b: &[u8]) -> bool {
 			Ok(s) => d.accepts_str(s),
 			Err(_) => false,
 		}
+	}
+}
+
+/// The eleven reference DFAs of one family, for use inside case evaluators.
+pub struct FamRefs {
+	pub family: Family,
+	dfas: Vec<std::sync::Arc<dfa::Dfa>>,
+}
+
+impl FamRefs {
+	pub fn new(refs: &Refs, f: Family) -> Self {
+		FamRefs { family: f, dfas: Kind::ALL.iter().map(|k| refs.dfa(f, *k)).collect() }
+	}
+	pub fn dfa(&self, k: Kind) -> &dfa::Dfa {
+		&self.dfas[Kind::ALL.iter().position(|x| *x == k).unwrap()]
+	}
+	pub fn valid(&self, k: Kind, b: &[u8]) -> bool {
+		ref_valid(self.dfa(k), self.family, k, b)
 	}
 }
